@@ -193,4 +193,39 @@ def scheme_contracts(funcs):
                                       "result is not None"),
                                      ("the selected rule is exact at least to the requested degree", "degree_ok_{}()".format(sname))]))
         SPEC["degree_ok_" + sname] = (lambda degree: (lambda e: to_z3(degree(e.ghost["N_called"])) >= e.ghost["N_poly"]))(degree)
+    # two-argument constructors: every tabulated (degree, degree) key is passed through unchanged
+    for sname, rname in (("log_quadrature_scheme", "log_quadrature_rule"), ("log_log_quadrature_scheme", "log_log_quadrature_rule"),
+                         ("sqrt_quadrature_scheme", "sqrt_quadrature_rule"), ("sqrtinv_quadrature_scheme", "sqrtinv_quadrature_rule")):
+        if rname not in funcs:
+            continue
+        keys = [k for k, _ in funcs[rname]["keys"]]
+        pa, pb = funcs[rname]["params"][:2]
+        cond = "Or({})".format(", ".join("And({} == {}, {} == {})".format(pa, k[0], pb, k[1]) for k in keys))
+
+        def res(e, b, pa=pa, pb=pb):
+            e.ghost["K_called"] = (e.ghost_call_env.lookup(pa), e.ghost_call_env.lookup(pb))
+            return (Vec([z3.Real("node")]), Vec([z3.Real("weight")]))
+        tabs.append(Contract("{}:{}".format(RULES, rname), prop="C05", requires=[("key-is-tabulated", cond)], result=res))
+
+        def setup2(eng, keys=keys, sname=sname):
+            def build(eng):
+                a, b = z3.Ints("K_a K_b")
+                eng.assume(z3.Or(*[z3.And(a == k[0], b == k[1]) for k in keys]))
+                eng.ghost["K_req"] = (a, b)
+                _, fnode, _ = eng.find_function("{}:{}".format(QUAD, sname))
+                names = [x.arg for x in fnode.args.args]
+                return {names[0]: a, names[1]: b}
+            return [dict(label="", args=build)]
+        out.append(Contract("{}:{}".format(QUAD, sname), props=["C05"], setup=setup2,
+                            ensures=[("constructs-a-rule-for-every-tabulated-key [{} keys]".format(len(keys)), "result is not None"),
+                                     ("the rule of exactly the requested (degree, degree) key is selected", "same_key()")],
+                            replay=(lambda sname, rname: lambda mv, sc, ob: (
+                                "from src import quadrature as Q, quadrature_rules as T\nimport numpy as np\n"
+                                "a, b = {a}, {b}\nwant = T.{r}(a, b)\nraises_is_violation = True\n"
+                                "got = Q.{s}(a, b)\n"
+                                "observed = dict(key=(a, b), got_points=None if got is None else len(got.points), want_points=len(want[0]))\n"
+                                "violated = got is None or not (np.array_equal(got.points, np.array(want[0])) and "
+                                "np.array_equal(got.weights, np.array(want[1])))\n").format(
+                                    a=int(mv.get("K_a") or 0), b=int(mv.get("K_b") or 0), r=rname, s=sname))(sname, rname)))
+    SPEC["same_key"] = lambda e: z3.And(e.ghost["K_called"][0] == e.ghost["K_req"][0], e.ghost["K_called"][1] == e.ghost["K_req"][1])
     return tabs, out
